@@ -396,7 +396,7 @@ class World:
                 new.get('metadata', {}).pop(f, None)
         new['apiVersion'] = old['apiVersion']
         new['kind'] = old['kind']
-        if new == old:
+        if json.dumps(new, sort_keys=True) == json.dumps(old, sort_keys=True):   # JSON equality: true is not 1
             return old
         marked = 'deletionTimestamp' in new['metadata']
         if marked and not new['metadata'].get('finalizers'):
